@@ -128,6 +128,13 @@ def _dense(case):
                 return result(False, sig=f"{rep}|num_samples", msg=f"{label}: asked the sampler for {ns} draws (replacement={repl}) for num_shots={shots}", outcome="ns", states=states, transitions=states)
             if w.shape != (D,) or np.abs(w / w.sum() - born / born.sum()).max() > 1e-12:
                 return result(False, sig=f"{rep}|weights", msg=f"{label}: weights offered to the sampler {np.round(w / w.sum(), 6).tolist()} are not the Born probabilities {np.round(born, 6).tolist()}", outcome="weights", states=states, transitions=states)
+            if shots == 1:
+                # the excited state named explicitly (what BitStrings(one_state="r") passes down)
+                with seams.torch_multinomial(seams.ScriptedMultinomial(answers=[list(tup)])):
+                    c_r = obj.sample(num_shots=shots, one_state="r")
+                states += 1
+                if Counter(c_r) != Counter(c):
+                    return result(False, sig=f"{rep}|one_state", msg=f"{label}: outcome {tup}: sample(one_state='r') reports {dict(c_r)}, sample() reports {dict(c)}", outcome="one_state", states=states, transitions=states)
             exp = Counter(_bits(i, n) for i in tup)
             if Counter(c) != exp:
                 return result(False, sig=f"{rep}|bitstrings", msg=f"{label}: outcomes {tup} reported as {dict(c)}, expected {dict(exp)} (MSB = first atom, r -> '1')", outcome="bits", states=states, transitions=states)
@@ -185,6 +192,14 @@ def _mps(case):
     moved = np.linalg.norm(mps_to_vec(probe.factors) - dense_before)
     if moved > 1e-10:
         return result(False, sig="mps|sample-changes-the-state", msg=f"{label}: sampling changed the represented state by {moved:.3e}", outcome="moved", states=paths_total, transitions=paths_total)
+    # the excited state named explicitly (what BitStrings(one_state="r") passes down): the same distribution
+    try:
+        dist_r, paths_r = explore.exact_bitstring_distribution(lambda: make().sample(num_shots=1, one_state="r"), eps=1e-14)
+    except Exception as e:
+        return result(False, sig=f"mps|raises|one_state|{type(e).__name__}", msg=f"{label}: sample(one_state='r'): {type(e).__name__}: {str(e)[:300]}", outcome="raise")
+    paths_total += paths_r
+    if explore.dist_distance(dist_r, dist) > 1e-12:
+        return result(False, sig=f"mps|one_state|dim{dim}", msg=f"{label}: sample(one_state='r') gives {rnd(dist_r, 6)}, sample() gives {rnd(dist, 6)}", outcome="one_state", states=paths_total, transitions=paths_total)
     dd = explore.dist_distance(dist, born)
     if dd > 1e-10 or abs(sum(dist.values()) - 1) > 1e-10:
         return result(False, sig=f"mps|distribution|dim{dim}", msg=f"{label}: exact sampling distribution {rnd(dist, 6)} != Born marginal {rnd(born, 6)} (max diff {dd:.2e}, mass {sum(dist.values())})", outcome="dist", states=paths_total, transitions=paths_total)
